@@ -392,6 +392,19 @@ def run(ctx):
     cl = prog.fn("occa::memory::clone")
     ok = any(is_call(c) and callee(c) == "occa::device::malloc" for c in cl.walk()) and not any(is_call(c) and callee(c).endswith("::slice") for c in cl.walk())
     R.ob("C02-R5", ok, cl.q, "clone:fresh allocation", "%s:%d" % (cl.relfile, cl.d["line"]), "clone goes through device::malloc (new buffer), never through slice")
+    # ... of exactly the source's byte size: a length in entries loses the tail of a memory whose byte size is no multiple of its dtype
+    mcs = [c for c in cl.walk() if is_call(c) and callee(c) == "occa::device::malloc"]
+    okb = False
+    for c in mcs:
+        a = call_args(c)
+        size_txt = noid(render(a[0], False)) if a else ""
+        in_bytes = any((is_call(x) and (callee(x) or "").endswith("memory::byte_size")) or (x["k"] == "MemberExpr" and x.get("n", "").endswith("modeMemory_t::size")) for x in walk(a[0])) if a else False
+        in_entries = any(is_call(x) and (callee(x) or "").split("::")[-1] in ("length", "size") and (callee(x) or "").startswith("occa::memory::") for x in walk(a[0])) if a else False
+        typed = len(a) > 1 and "dtype_t" in cl.type(strip(a[1])) and "dtype::byte" not in render(a[1], False)
+        okb = okb or (in_bytes and not in_entries and not typed)
+    R.ob("C02-R5", okb, cl.q, "clone:allocates the source's size in bytes", cl.site(mcs[0]) if mcs else "%s:%d" % (cl.relfile, cl.d["line"]),
+         "device.malloc(byte_size(), *this, ...) as bytes" if okb else
+         "the clone is sized in whole entries of the dtype (%s): for a memory whose byte size is no multiple of its dtype size (10 bytes cast to float) the clone is shorter than the original - its last bytes are lost and an in-range read of the clone raises" % (size_txt[:40] if mcs else "?"))
     sm = prog.fn("occa::serial::device::malloc")
     ok = any(n["k"] == "CXXNewExpr" and "serial::buffer" in sm.tname(n.get("nt")) for n in sm.walk())
     R.ob("C02-R5", ok, sm.q, "malloc:new buffer", "%s:%d" % (sm.relfile, sm.d["line"]), "Serial malloc creates its own buffer object")
